@@ -462,6 +462,23 @@ Proof.
       rewrite Hall in Hg. rewrite Hc in Hrel. cbn [terminal Z.eqb orb] in Hrel. rewrite <- Hg in Hrel. rewrite srecs_prefix_firstn in Hrel. discriminate.
 Qed.
 
+(* the sticky error state of the model: every further Read returns nothing and the same error, so the
+   total of delivered bytes is the authenticated prefix for every number of Read calls *)
+Lemma sticky_reads st bufs :
+  Forall (fun r => r = (0, st)) (reads_after st bufs) /\
+  forall d, total_delivered d (reads_after st bufs) = blen d.
+Proof.
+  split.
+  - unfold reads_after. apply Forall_forall. intros r H. apply in_map_iff in H. destruct H as [b [E _]]. subst. reflexivity.
+  - intro d. unfold total_delivered, reads_after. induction bufs as [|b bufs IH]; simpl in *; lia.
+Qed.
+Lemma sticky_prop st bufs :
+  forallb (fun v => val_eqb v (VL [VZ 0; VZ st])) (map (fun r => VL [VZ (fst r); VZ (snd r)]) (reads_after st bufs)) = true.
+Proof.
+  apply forallb_forall. intros v H. apply in_map_iff in H. destruct H as [r [E Hr]]. unfold reads_after in Hr.
+  apply in_map_iff in Hr. destruct Hr as [b [Eb _]]. subst. unfold read_after. cbn [fst snd]. apply val_eqb_refl.
+Qed.
+
 Theorem prop_C42_of_model_tampered : forall i x,
   dec_C42 i = Some x -> wf_base x = true -> ssl3_longpad (i_cfg x) = false -> relevant x = true -> kf_C42 i = 0 ->
   prop_C42 i (run_C42 i) = true.
@@ -470,7 +487,7 @@ Proof.
   destruct (tampered_wire x) as [w trail] eqn:Hw.
   destruct (receive sbody sopen (i_cfg x) w trail) as [[d st] n] eqn:Hr.
   destruct (model_prefix_and_detection x w trail d st n Hwf Hlp Hw Hr) as [Hp [_ [_ Hdet]]].
-  rewrite Hp, Hrel. simpl. simpl in Hkf. destruct (tail_dropped x) eqn:Htd; [discriminate|].
+  rewrite sticky_prop, Hp, Hrel. simpl. simpl in Hkf. destruct (tail_dropped x) eqn:Htd; [discriminate|].
   apply negb_true_iff, Z.eqb_neq. apply Hdet; [exact Hrel|reflexivity].
 Qed.
 
@@ -670,7 +687,7 @@ Proof.
   unfold run_C42, prop_C42. rewrite Hdec, Hwf, Hw, Hrel.
   destruct (receive sbody sopen (i_cfg x) (orig_wire x) 0) as [[d st] n] eqn:Hr.
   cbn [andb].
-  destruct (model_prefix_and_detection x _ _ d st n Hwf Hlp Hw Hr) as [Hp _]. rewrite Hp.
+  destruct (model_prefix_and_detection x _ _ d st n Hwf Hlp Hw Hr) as [Hp _]. rewrite sticky_prop, Hp.
   destruct (pads_ok x) eqn:Hpo; [|reflexivity].
   rewrite (model_untampered x Hwf Hc Hpo) in Hr. inversion Hr; subst.
   rewrite Z.eqb_refl. unfold bytes_eqb. rewrite list_Z_eqb_refl. reflexivity.
@@ -695,54 +712,54 @@ Qed.
 Definition hello_world : val := VL [VB [104; 101; 108; 108; 111]; VB [119; 111; 114; 108; 100]].
 Definition ex_taildrop : val :=
   VL [VL [VZ 47; VZ 771; VZ 1; VZ 20; VZ 16; VZ 16; VZ 0; VZ 0; VZ 0]; hello_world; VB [1; 0];
-      VL [VL [VZ 4; VZ 2]; VL [VZ 4; VZ 1]]; VZ (-1); VZ 0; VZ 64].
+      VL [VL [VZ 4; VZ 2]; VL [VZ 4; VZ 1]]; VZ (-1); VZ 0; VZ 64; VL [VZ 5; VZ 4096]].
 Definition ex_flip_tag : val :=
   VL [VL [VZ 49199; VZ 771; VZ 2; VZ 0; VZ 0; VZ 8; VZ 16; VZ 0; VZ 0]; hello_world; VB [1; 0];
-      VL [VL [VZ 1; VZ 1; VZ 33; VZ 1]]; VZ (-1); VZ 0; VZ 64].
+      VL [VL [VZ 1; VZ 1; VZ 33; VZ 1]]; VZ (-1); VZ 0; VZ 64; VL [VZ 5; VZ 4096]].
 Definition ex_replay : val :=
   VL [VL [VZ 5; VZ 769; VZ 0; VZ 20; VZ 0; VZ 0; VZ 0; VZ 0; VZ 0]; hello_world; VB [1; 0];
-      VL [VL [VZ 3; VZ 0; VZ 1]]; VZ (-1); VZ 0; VZ 64].
+      VL [VL [VZ 3; VZ 0; VZ 1]]; VZ (-1); VZ 0; VZ 64; VL [VZ 5; VZ 4096]].
 Definition ex_forged_close : val :=
   VL [VL [VZ 47; VZ 769; VZ 1; VZ 20; VZ 16; VZ 0; VZ 0; VZ 0; VZ 0]; hello_world; VB [];
-      VL [VL [VZ 5; VZ 1; VZ 21; VZ 769; VZ 2]]; VZ (-1); VZ 0; VZ 64].
+      VL [VL [VZ 5; VZ 1; VZ 21; VZ 769; VZ 2]]; VZ (-1); VZ 0; VZ 64; VL [VZ 5; VZ 4096]].
 Definition ex_clean : val :=
-  VL [VL [VZ 47; VZ 769; VZ 1; VZ 20; VZ 16; VZ 0; VZ 0; VZ 0; VZ 0]; hello_world; VB [1; 0]; VL []; VZ (-1); VZ 0; VZ 64].
+  VL [VL [VZ 47; VZ 769; VZ 1; VZ 20; VZ 16; VZ 0; VZ 0; VZ 0; VZ 0]; hello_world; VB [1; 0]; VL []; VZ (-1); VZ 0; VZ 64; VL [VZ 5; VZ 4096]].
 
 Lemma tail_truncation_witness : exists i x,
   dec_C42 i = Some x /\ wf_C42 x = true /\ relevant x = true /\ kf_C42 i = 1 /\
-  run_C42 i = VL [VB [104; 101; 108; 108; 111]; VZ 1; VZ 1] /\ prop_C42 i (run_C42 i) = false.
+  run_C42 i = VL [VB [104; 101; 108; 108; 111]; VZ 1; VZ 1; VL [VL [VZ 0; VZ 1]; VL [VZ 0; VZ 1]]; VZ 0] /\ prop_C42 i (run_C42 i) = false.
 Proof.
   exists ex_taildrop. eexists. split; [vm_compute; reflexivity|]. vm_compute. repeat split.
 Qed.
 Lemma examples_lemma :
-  run_C42 ex_flip_tag = VL [VB [104; 101; 108; 108; 111]; VZ 120; VZ 1] /\ kf_C42 ex_flip_tag = 0 /\
-  run_C42 ex_replay = VL [VB [104; 101; 108; 108; 111]; VZ 120; VZ 1] /\ kf_C42 ex_replay = 0 /\
-  run_C42 ex_forged_close = VL [VB [104]; VZ 110; VZ 1] /\ kf_C42 ex_forged_close = 0 /\
-  run_C42 ex_clean = VL [VB [104; 101; 108; 108; 111; 119; 111; 114; 108; 100]; VZ 1; VZ 5].
+  run_C42 ex_flip_tag = VL [VB [104; 101; 108; 108; 111]; VZ 120; VZ 1; VL [VL [VZ 0; VZ 120]; VL [VZ 0; VZ 120]]; VZ 120] /\ kf_C42 ex_flip_tag = 0 /\
+  run_C42 ex_replay = VL [VB [104; 101; 108; 108; 111]; VZ 120; VZ 1; VL [VL [VZ 0; VZ 120]; VL [VZ 0; VZ 120]]; VZ 120] /\ kf_C42 ex_replay = 0 /\
+  run_C42 ex_forged_close = VL [VB [104]; VZ 110; VZ 1; VL [VL [VZ 0; VZ 110]; VL [VZ 0; VZ 110]]; VZ 110] /\ kf_C42 ex_forged_close = 0 /\
+  run_C42 ex_clean = VL [VB [104; 101; 108; 108; 111; 119; 111; 114; 108; 100]; VZ 1; VZ 5; VL [VL [VZ 0; VZ 1]; VL [VZ 0; VZ 1]]; VZ 0].
 Proof. vm_compute. repeat split. Qed.
 
 (* a peer with SSLv3-style padding (arbitrary content): rejected by a TLS 1.0 receiver, accepted by SSLv3 *)
 Definition ex_ssl3_pad_tls : val :=
-  VL [VL [VZ 47; VZ 769; VZ 1; VZ 20; VZ 16; VZ 0; VZ 0; VZ 1; VZ 0]; hello_world; VB [1; 0]; VL []; VZ (-1); VZ 0; VZ 64].
+  VL [VL [VZ 47; VZ 769; VZ 1; VZ 20; VZ 16; VZ 0; VZ 0; VZ 1; VZ 0]; hello_world; VB [1; 0]; VL []; VZ (-1); VZ 0; VZ 64; VL [VZ 5; VZ 4096]].
 Definition ex_ssl3_pad_ssl3 : val :=
-  VL [VL [VZ 47; VZ 768; VZ 1; VZ 20; VZ 16; VZ 0; VZ 0; VZ 1; VZ 0]; hello_world; VB [1; 0]; VL []; VZ (-1); VZ 0; VZ 64].
+  VL [VL [VZ 47; VZ 768; VZ 1; VZ 20; VZ 16; VZ 0; VZ 0; VZ 1; VZ 0]; hello_world; VB [1; 0]; VL []; VZ (-1); VZ 0; VZ 64; VL [VZ 5; VZ 4096]].
 Lemma wf_examples_lemma :
   (exists x, dec_C42 ex_flip_tag = Some x /\ wf_C42 x = true) /\
   (exists x, dec_C42 ex_replay = Some x /\ wf_C42 x = true) /\
   (exists x, dec_C42 ex_forged_close = Some x /\ wf_C42 x = true) /\
   (exists x, dec_C42 ex_clean = Some x /\ wf_C42 x = true /\ pads_ok x = true) /\
   (exists x, dec_C42 ex_ssl3_pad_tls = Some x /\ wf_C42 x = true /\ pads_ok x = false /\
-             run_C42 ex_ssl3_pad_tls = VL [VB []; VZ 120; VZ 0]) /\
+             run_C42 ex_ssl3_pad_tls = VL [VB []; VZ 120; VZ 0; VL [VL [VZ 0; VZ 120]; VL [VZ 0; VZ 120]]; VZ 120]) /\
   (exists x, dec_C42 ex_ssl3_pad_ssl3 = Some x /\ wf_C42 x = true /\ pads_ok x = true).
 Proof. repeat split; eexists; (split; [vm_compute; reflexivity|]); vm_compute; repeat split. Qed.
 
 (* finding 2: SSLv3, peer with three blocks of padding, one bit of the padding flipped: accepted *)
 Definition ex_ssl3_longpad_flip : val :=
   VL [VL [VZ 47; VZ 768; VZ 1; VZ 20; VZ 16; VZ 0; VZ 0; VZ 2; VZ 2]; hello_world; VB [1; 0];
-      VL [VL [VZ 1; VZ 1; VZ 38; VZ 4]]; VZ (-1); VZ 0; VZ 64].
+      VL [VL [VZ 1; VZ 1; VZ 38; VZ 4]]; VZ (-1); VZ 0; VZ 64; VL [VZ 5; VZ 4096]].
 Lemma ssl3_padding_witness : exists x,
   dec_C42 ex_ssl3_longpad_flip = Some x /\ wf_base x = true /\ ssl3_longpad (i_cfg x) = true /\
   relevant x = true /\ kf_C42 ex_ssl3_longpad_flip = 2 /\
-  run_C42 ex_ssl3_longpad_flip = VL [VB [104; 101; 108; 108; 111; 119; 111; 114; 108; 100]; VZ 1; VZ 5] /\
+  run_C42 ex_ssl3_longpad_flip = VL [VB [104; 101; 108; 108; 111; 119; 111; 114; 108; 100]; VZ 1; VZ 5; VL [VL [VZ 0; VZ 1]; VL [VZ 0; VZ 1]]; VZ 0] /\
   prop_C42 ex_ssl3_longpad_flip (run_C42 ex_ssl3_longpad_flip) = false.
 Proof. eexists. split; [vm_compute; reflexivity|]. vm_compute. repeat split. Qed.
